@@ -148,6 +148,10 @@ type Sched struct {
 	// StallOK reports whether tasks parked with KStalled may run: by
 	// default they run only when nothing else is runnable.
 
+	// Normalize, when set, is applied to every park detail before it is
+	// logged or hashed (strips run-specific scratch paths).
+	Normalize func(string) string
+
 	viol     *Violation
 	deadlock bool
 	rootsWG  int
@@ -314,6 +318,9 @@ func (s *Sched) park(t *Task, kind Kind, site, detail string, res any) {
 	}
 	ch := make(chan struct{})
 	t.ch = ch
+	if s.Normalize != nil {
+		detail = s.Normalize(detail)
+	}
 	t.kind, t.site, t.detail, t.waitRes = kind, site, detail, res
 	s.parkSeq++
 	t.parkSeq = s.parkSeq
